@@ -3,11 +3,15 @@
 \* (TLC counterexample: Recv 1, Recv 2, Open, Forward(1) -> destination 1 receives octets of datagram 2)
 \* and the deviation "the reply to a control-channel DNS query is headed by the address that was asked"
 \* (seeded change r3m3): ReplyIntact is violated for a datagram to the virtual DNS address.
+\* and the deviation NetipText (seeded change r5m3): the parser spells an IPv4-mapped address as IPv6 text - Intact and ReplyIntact
+\* still hold (why the fault is invisible end to end), OneSessionPerDest / VdnsRecognised do not (Socks5Relay_show_netiptext.cfg).
 CONSTANTS
   Emit = FALSE
   MaxK = 2
   Alias = TRUE
   ReplySubst = TRUE
+  NetipText = TRUE
+  ValClasses = TRUE
 INIT Init
 NEXT Next
 INVARIANTS TypeOK Faithful Complete
